@@ -32,7 +32,7 @@ REAL = ["bec2format.bec2file (InitEccAuthBlock, EccEncryptor, EccDecryptor)", "b
         "ecdsa (keys, ecdh, ellipticcurve, util.randrange)", "pyaes"]
 STUBS = ["RNG: SimRng behind os.urandom shims", "key generation observer (register_PrivateEccKey)",
          "device model: RefP256 + RefAES", "openssl binary (thorough tier sample)"]
-PROBES = ["default-recipient", "selector-nonzero-default", "edge-recipient-scalar", "edge-ephemeral-scalar",
+PROBES = ["keystore-decoys", "default-recipient", "selector-nonzero-default", "edge-recipient-scalar", "edge-ephemeral-scalar",
           "randrange-retry", "session-key-trailing-zero", "point-off-curve-rejected", "point-coordinate-ge-p",
           "point-zero", "point-negated-still-on-curve", "openssl-agrees"]
 ASSUMPTIONS = ["published recipient keys transcribed into sim/prov.py from the appnote/property text"]
@@ -63,7 +63,7 @@ def gen(st, tier):
         kind = f.choice(["bit", "bit", "bit", "x>=p", "y>=p", "zero", "twist", "negate", "x=p"])
         damage = [kind, f.randrange(64), f.randrange(8)]
     return {"sel": w.randrange(4), "recip": recip, "skey": bytes(k).hex(), "eph": eph,
-            "rng": w.getrandbits(32), "damage": damage,
+            "rng": w.getrandbits(32), "damage": damage, "decoys": w.random() < 0.4,
             "ossl": tier == "thorough" and w.random() < 0.02}
 
 
@@ -151,6 +151,10 @@ def run(case):
             out.probes["default-recipient"] += 1
             if sel:
                 out.probes["selector-nonzero-default"] += 1
+        decoys = prov.decoys_for(env, sel) if case.get("decoys") else []
+        if decoys:
+            out.probes["keystore-decoys"] += 1
+            ext = [e for e, _ in decoys] + ext
         ndraw0 = len(rng.draws)
         try:
             raw = block.pack(skey, ext)
@@ -210,8 +214,18 @@ def run(case):
         # ---- the real decryptor agrees ----
         if priv is not None:
             dec = bf.EccDecryptor(sel, priv)
+            if decoys:
+                # only decryptors for OTHER selectors: nobody here can open the block
+                try:
+                    blk0, k0 = bf.InitEccAuthBlock.unpack(raw, [d_ for _, d_ in decoys])
+                except Exception:
+                    pass
+                else:
+                    out.fail("C09.unpack", "foreign-selector-decryptor-used",
+                             "with decryptors for other key selectors only, unpack returned key %s instead of "
+                             "refusing" % k0.hex())
             try:
-                blk, k2 = bf.InitEccAuthBlock.unpack(raw, [dec])
+                blk, k2 = bf.InitEccAuthBlock.unpack(raw, [d_ for _, d_ in decoys] + [dec])
             except Exception as e:
                 out.fail("C09.unpack", "raises-" + type(e).__name__, "unpacking the block with the recipient's "
                          "private key raised %s: %s" % (type(e).__name__, e))
